@@ -913,12 +913,12 @@ Section OCalls.
     destruct (o_open_file sw (W (SLASH :: r)) 0 0) as [sw1 [aw|fw]];
       destruct (o_open_file sl (SLASH :: r) 0 0) as [sl1 [al|fl]]; cbn [fst snd] in *; try contradiction; [exact Hres|].
     destruct Hres as (Hn & _ & _ & Hi1 & Hi2 & _ & _ & _ & Hnw & Hnl & Hsome).
-    unfold of_read_dir, o_prologue. destruct (hd_name fw); [congruence|]. destruct (hd_name fl); [congruence|].
+    unfold of_read_dir, o_dir_read, o_prologue. destruct (hd_name fw); [congruence|]. destruct (hd_name fl); [congruence|].
     rewrite Hn. destruct (hd_node fl) as [c|]; [|congruence].
     pose proof (oheap_get c (or_heap O1)) as Hg.
     destruct (oget (o_heap sw1) c) as [a|]; destruct (oget (o_heap sl1) c) as [b|]; try contradiction; [|reflexivity].
     destruct Hg as (_ & _ & _ & _ & Hdir). rewrite Hdir. destruct (negb (on_dir b)); [reflexivity|].
-    unfold o_batch. rewrite Hi1, Hi2. reflexivity.
+    unfold dir_batch. rewrite Hi1, Hi2. reflexivity.
   Qed.
 
   Lemma o_read_file_sim sw sl (O : orel sw sl) (r : str) : okstr (SLASH :: r) ->
